@@ -13,6 +13,7 @@ import (
 	"encoding/json"
 	"fmt"
 	"math"
+	"runtime/debug"
 	"sort"
 	"strings"
 	"testing"
@@ -362,7 +363,10 @@ func c19Judge(r *rep.Report, tc c19Case, verbose bool) string {
 				len(after.Request.RequestMessages[tc.Pos].Value), gotSize)), tc)
 		bad = true
 	}
-	if !proto.Equal(c19WithoutData(got), c19WithoutData(orig)) ||
+	// (got is a private copy: take the data out instead of cloning megabytes)
+	gotData := c19GetData(got)
+	got.ProtoReflect().Clear(c19DataField(got))
+	if !proto.Equal(got, c19WithoutData(orig)) ||
 		got.ProtoReflect().Descriptor().FullName() != orig.ProtoReflect().Descriptor().FullName() {
 		r.Violate("padding-changed-other-field",
 			describe("a field other than request_data differs after expansion"), tc)
@@ -370,13 +374,14 @@ func c19Judge(r *rep.Report, tc c19Case, verbose bool) string {
 	}
 	if tc.Via == "direct" {
 		// everything else in the test case stays as it was
-		cmpAfter := proto.Clone(after).(*conformancev1.TestCase) //nolint:errcheck,forcetypeassert
-		cmpAfter.Request.RequestMessages[tc.Pos] = before.Request.RequestMessages[tc.Pos]
-		if !proto.Equal(cmpAfter, before) {
+		expanded := after.Request.RequestMessages[tc.Pos]
+		after.Request.RequestMessages[tc.Pos] = before.Request.RequestMessages[tc.Pos]
+		if !proto.Equal(after, before) {
 			r.Violate("padding-changed-other-field",
 				describe("the test case differs outside the expanded message"), tc)
 			bad = true
 		}
+		after.Request.RequestMessages[tc.Pos] = expanded
 	} else if tc.Pos == 1 {
 		if !proto.Equal(after.Request.RequestMessages[0], before.Request.RequestMessages[0]) {
 			r.Violate("padding-changed-other-field",
@@ -384,7 +389,7 @@ func c19Judge(r *rep.Report, tc c19Case, verbose bool) string {
 			bad = true
 		}
 	}
-	if target >= unpadded && !bytes.HasPrefix(c19GetData(got), existing) {
+	if target >= unpadded && !bytes.HasPrefix(gotData, existing) {
 		r.Violate("padding-changed-existing-data",
 			describe("existing request_data is not a prefix of the padded request_data"), tc)
 		bad = true
@@ -427,6 +432,9 @@ func c19Deltas(typ, content string, thorough, suite bool) []int64 {
 	zeroWin, win := int64(64), int64(12)
 	if thorough {
 		zeroWin, win = 300, 40
+	}
+	if suite {
+		zeroWin /= 4 // the public path is a sub-family
 	}
 	for d := -zeroWin; d <= zeroWin; d++ {
 		add(d)
@@ -537,6 +545,8 @@ func TestVerifC19Expand(t *testing.T) {
 
 	deadline := rep.Deadline()
 	const limit = int64(serverReceiveLimit)
+	// most cases build messages of ~200 KiB several times over: collect less often
+	defer debug.SetGCPercent(debug.SetGCPercent(400))
 	var k int64
 	c19Enumerate(rep.Thorough(), func(tc c19Case) bool {
 		k++
